@@ -207,6 +207,11 @@ fn main() {
         let above = r["above"].as_str().unwrap_or("guard");
         let inner = unsafe { carve(pages.max(1), below, above, 0) };
         fill_pattern(inner, pages.max(1) * PAGE);
+        // "image": the bytes of this file at the start of the (anonymous) mapping
+        if let Some(b) = r["image"].as_str().and_then(|p| std::fs::read(p).ok()) {
+            let n = b.len().min(pages.max(1) * PAGE);
+            unsafe { std::ptr::copy_nonoverlapping(b.as_ptr(), inner as *mut u8, n) };
+        }
         // the region either starts `lead` bytes into the inner pages or ends exactly at their end
         let start = if r["at_end"].as_bool().unwrap_or(false) { inner + pages.max(1) * PAGE - len } else { inner + lead };
         if r["exec"].as_bool().unwrap_or(false) {
